@@ -50,7 +50,7 @@ fn show_attrs(m: &HashMap<String, Option<String>>) -> String {
 
 /// every text up to 3 bytes over a hostile alphabet, whole and split across two character-strings
 pub fn tiny_txt_contents() -> Vec<Vec<Vec<u8>>> {
-    let alpha: [u8; 8] = [b'"', b';', b'=', b'\\', b'.', b'a', 0, 0xFF];
+    let alpha: [u8; 10] = [b'"', b';', b'=', b'\\', b'.', b'a', 0, 0xFF, b'`', b','];
     let mut out: Vec<Vec<Vec<u8>>> = vec![vec![vec![]], vec![vec![], vec![]]];
     for len in 1..=3usize {
         for mut code in 0..alpha.len().pow(len as u32) {
@@ -121,6 +121,8 @@ pub fn cases(tier: &str, seed: u64) -> Vec<Case> {
             };
             m.insert(key, val);
         }
+        // keys that differ only in letter case are different keys
+        if i % 6 == 2 { for k in ["id", "ID", "Id", "größe", "GRÖSSE"] { if r.chance(1, 2) { m.insert(k.to_string(), if r.chance(1, 3) { None } else { Some(rand_string(&mut r, 3)) }); } } }
         let res = TXT::try_from(m.clone());
         // the model is given the entries in the order the implementation's map iteration produced them
         let mut entries: Vec<(String, Option<String>)> = vec![];
@@ -159,7 +161,7 @@ pub fn cases(tier: &str, seed: u64) -> Vec<Case> {
             match r.below(5) {
                 0 => r.bytes(l),
                 1 => { let mut b = rand_string(&mut r, l).into_bytes(); if !b.is_empty() && r.chance(1, 3) { let i = r.below(b.len() as u64) as usize; b[i] = 0xFF; } b }
-                _ => { let pool = ["a", "b", "a=", "a=1", "b=2", "=x", "a=b=c", "k", ";", "a;b=1", "é=ü"]; let mut s = r.pick(&pool).to_string(); if r.chance(1, 3) { s.push_str(&rand_string(&mut r, 3)); } s.into_bytes() }
+                _ => { let pool = ["a", "b", "a=", "a=1", "b=2", "=x", "a=b=c", "k", ";", "a;b=1", "é=ü", "A", "A=2", "K=v", "key=first", "KEY=other", "Key", "flag`", "`", "a`=b"]; let mut s = r.pick(&pool).to_string(); if r.chance(1, 3) { s.push_str(&rand_string(&mut r, 3)); } s.into_bytes() }
             }
         }).collect() };
         let t = txt_of(&strings);
